@@ -121,9 +121,15 @@ def okC01 (m : Mon) : Tag → Bool
   | .act .setup | .act .deliver | .act .deliverBuffered => m.granted
   | _ => true
 
-/-- C04: reported transitions are spec edges; terminal outcomes are final -/
+/-- an outcome that has been reported and is not `error`: aborted (locally / remotely), rejected -/
+def St.isOutcome : St → Bool
+  | .hAbortDone | .hRemoteAbortDone | .hRejected => true
+  | _ => false
+
+/-- C04: reported transitions are spec edges; terminal outcomes are final (an outcome once reported is not replaced
+    by another one, `error` included; `error` may be reported again) -/
 def okC04 (r : Role) (m : Mon) : Tag → Bool
-  | .act (.report s _) => edgeOK r m.last s && (!m.term || s == .error || (m.last == .hAbort && s == .hAbortDone))
+  | .act (.report s _) => edgeOK r m.last s && (!m.term || (s == .error && !m.last.isOutcome) || (m.last == .hAbort && s == .hAbortDone))
   | .act (.sent f) => !m.term || closingFrame f
   | .snap trun wsClosed final => (!m.term || !trun) && (!final || !m.term || wsClosed)
   | _ => true
